@@ -119,7 +119,6 @@ class Evaluator:
         self._stack: list[int] = []
         self._call_aliases: set[str] | None = None
         self.inline_private_static = True  # Cls._helper(...) private static helpers are read at the call site (rules name the ones they want opaque)
-        self.py_phis: set = set()  # joins written as Python conditional expressions (as opposed to lax.cond / FlagOp.cond joins)
 
     def call_aliases(self) -> set:
         """method names m such that some class defines `__call__(self, *a): return self.m(*a)` and no other class defines m:
@@ -258,6 +257,12 @@ def _iterable(it):
     """canonical iterable: iterating over list(x) / tuple(x) is iterating over x; zip / enumerate become structured terms"""
     while is_t(it, "call") and it[1] in (G("list"), G("tuple")) and len(it[2]) == 1 and not it[3]:
         it = it[2][0]
+    # dictionary views: iterating d.items() / d.keys() / d.values() is iterating the keys of d, with elements (k, d[k]) / k / d[k]
+    if is_t(it, "call") and is_t(it[1], "attr") and it[1][2] in ("items", "keys", "values") and not it[2] and not it[3]:
+        if is_t(it[1][1], "dictfam"):
+            d = it[1][1]
+            return ("fam", d[1], {"items": mk_tuple((d[2], d[3])), "keys": d[2], "values": d[3]}[it[1][2]])
+        return (it[1][2], it[1][1]) if it[1][2] != "keys" else it[1][1]
     if is_t(it, "call") and it[1] == G("zip") and not it[3]:
         return ("zip", tuple(_iterable(x) for x in it[2]))
     if is_t(it, "call") and it[1] == G("enumerate") and len(it[2]) >= 1:
@@ -286,6 +291,8 @@ def norm_it(it):
     zip(F, G) of families over one iterable ranges over that iterable"""
     if is_t(it, "fam"):
         return norm_it(it[1])
+    if is_t(it, "items") or is_t(it, "values"):
+        return it[1]
     if is_t(it, "phi"):
         b = fam_base(it)
         return b if b is not None else it
@@ -319,6 +326,9 @@ def mk_bin(op, a, b):
 def mk_call(f, args, kw):
     """generic call term with the conversions that have a canonical form"""
     args = tuple(args)
+    if not args and not kw and is_t(f, "attr") and f[2] in ("items", "keys", "values") and is_t(f[1], "dictfam"):
+        d = f[1]
+        return ("fam", d[1], {"items": mk_tuple((d[2], d[3])), "keys": d[2], "values": d[3]}[f[2]])
     if len(args) == 1 and not kw:
         a = args[0]
         # Diff.tree_primal / tree_tangent / no_change / unknown_change are tree maps: they distribute over a literal tuple
@@ -488,6 +498,10 @@ def mk_elem(it):
     """the generic element of iterable `it`"""
     if is_t(it, "fam"):
         return it[2]
+    if is_t(it, "items"):
+        return mk_tuple((("elem", it[1]), ("index", it[1], ("elem", it[1]))))
+    if is_t(it, "values"):
+        return ("index", it[1], ("elem", it[1]))
     if is_t(it, "mswitch") and is_t(it[2], "fam"):
         return ("mselem", it[1], it[2][2])
     if is_t(it, "call") and it[1] == G("list") and len(it[2]) == 1:
@@ -702,6 +716,9 @@ class _Ctx:
         self.cls = cls
         self.depth = depth
         ev.depth_reached = max(ev.depth_reached, depth)
+        # joins written in THIS function body as Python conditionals (expressions or if/else assignments) - as opposed to lax.cond / FlagOp.cond joins and to
+        # joins inherited from inlined callees, which are values like any other
+        self.py_phis: set = set()
 
     # -------------------------------------------------------------- statements
     def run_body(self, body, env) -> FuncResult:
@@ -711,7 +728,7 @@ class _Ctx:
         res.env = out_env if out_env is not None else getattr(res, "env_at_return", env)
         # `return a if c else b` and `if c: return a` / `else: return b` are the same arms
         def _expand(conds, t):
-            if is_t(t, "phi") and t in self.ev.py_phis:
+            if is_t(t, "phi") and t in self.py_phis:
                 return _expand(conds + ((t[1], True),), t[2]) + _expand(conds + ((t[1], False),), t[3])
             return [(conds, t)]
 
@@ -817,7 +834,7 @@ class _Ctx:
             if e1 is not None and e2 is not None:
                 for v in out.values():
                     if is_t(v, "phi") and v[1] == test:
-                        ev.py_phis.add(v)
+                        self.py_phis.add(v)
             return out
         if isinstance(st, ast.Match):
             return self.match(st, env, conds)
@@ -936,7 +953,12 @@ class _Ctx:
                 fields = ci.fields
             tests = [("isinst", subj, short)]
             for i, sp in enumerate(pat.patterns):
-                sub = mk_attr(self.ev, subj, fields[i]) if fields and i < len(fields) else ("matcharg", subj, short, i)
+                if fields and i < len(fields):
+                    sub = mk_attr(self.ev, subj, fields[i])
+                elif i == 0 and len(pat.patterns) == 1 and not cis and short in ("bool", "int", "float", "str", "bytes", "bytearray", "tuple", "list", "dict", "set", "frozenset"):
+                    sub = subj  # `case bool(x)`: for these builtins the single positional sub-pattern matches the subject itself
+                else:
+                    sub = ("matcharg", subj, short, i)
                 t = self.pattern(sp, sub, env)
                 if t != C(True):
                     tests.append(t)
@@ -1058,7 +1080,7 @@ class _Ctx:
             test = self.expr(e.test, env)
             v = mk_phi(test, self.expr(e.body, env), self.expr(e.orelse, env))
             if is_t(v, "phi"):
-                ev.py_phis.add(v)
+                self.py_phis.add(v)
             return v
         if isinstance(e, ast.Lambda):
             return self.make_closure(e, env, "<lambda>")
@@ -1072,7 +1094,7 @@ class _Ctx:
         if isinstance(e, ast.DictComp):
             cenv = dict(env)
             it = self.comp_iter(e.generators, cenv)
-            return ("dictfam", it, self.expr(e.key, cenv), self.expr(e.value, cenv))
+            return ("dictfam", norm_it(it), self.expr(e.key, cenv), self.expr(e.value, cenv))
         if isinstance(e, ast.JoinedStr):
             return ("opaque", "fstring", ())
         if isinstance(e, ast.NamedExpr):
@@ -1418,7 +1440,7 @@ class _Ctx:
             cis = ev.prog.class_index.get(short)
             if cis:
                 ci = cis[0]
-                if name in ci.methods and ((short, name) in _INLINE_STATIC or (
+                if name in ci.methods and ((short, name) in _INLINE_STATIC or (name not in ev.opaque_methods and _thin_forwarder(ci.methods[name], short)) or (
                         name.startswith("_") and not name.startswith("__") and name not in ev.opaque_methods and _is_static(ci.methods[name])
                         and (_pure_wiring(ci.methods[name]) or (ev.inline_private_static and not _is_opaque_fn(ci.methods[name]) and not _numeric_kernel(ci.methods[name]))))):
                     fn = ci.methods[name]
@@ -1605,6 +1627,26 @@ def _numeric_kernel(fn) -> bool:
             if d.split(".")[0] in ("jnp", "np") or d.startswith("jax.numpy.") or d.startswith("jax.lax.") or d.startswith("lax."):
                 return True
     return False
+
+
+def _thin_forwarder(fn, cls_name) -> bool:
+    """`def f(x): return Cls.g(x.items())`: a one-statement static method that hands re-arranged arguments to another method of its own class"""
+    if not _is_static(fn):
+        return False
+    body = [b for b in fn.body if not (isinstance(b, ast.Expr) and isinstance(b.value, ast.Constant))]
+    if not (len(body) == 1 and isinstance(body[0], ast.Return) and isinstance(body[0].value, ast.Call)):
+        return False
+    c = body[0].value
+    if not (isinstance(c.func, ast.Attribute) and isinstance(c.func.value, ast.Name) and c.func.value.id == cls_name and c.func.attr != fn.name):
+        return False
+    params = {a.arg for a in fn.args.args + fn.args.kwonlyargs} | ({fn.args.vararg.arg} if fn.args.vararg else set()) | ({fn.args.kwarg.arg} if fn.args.kwarg else set())
+    for a in list(c.args) + [k.value for k in c.keywords]:
+        a = a.value if isinstance(a, ast.Starred) else a
+        ok = isinstance(a, (ast.Name, ast.Constant)) or (isinstance(a, ast.Call) and isinstance(a.func, ast.Attribute) and isinstance(a.func.value, ast.Name)
+                                                       and a.func.value.id in params and a.func.attr in ("items", "keys", "values") and not a.args)
+        if not ok:
+            return False
+    return True
 
 
 def _pure_wiring(fn) -> bool:
